@@ -6,8 +6,8 @@ import MsqModel.Driver.ShowVal
 
 Built on `C03.tquery` (Props/C03Q.lean): expressions are those of `TQ.FragE3`, queries those of `TQ.FragQ` (both closed under nesting).
 
-**Fragment** `TD.FragStmt d s` (a `Bool` over the model's `Ast.Stmt`, Lemmas/TDml0.lean):
-* `DELETE FROM t [WHERE e] [ORDER BY k [DESC], …] [LIMIT n | LIMIT m, n]` — `t` plain or schema-qualified (`` `s.n` ``, `TD.tblOKD`);
+**Fragment** `TDM.FragStmt d s` (a `Bool` over the model's `Ast.Stmt`, Lemmas/TDml0.lean):
+* `DELETE FROM t [WHERE e] [ORDER BY k [DESC], …] [LIMIT n | LIMIT m, n]` — `t` plain or schema-qualified (`` `s.n` ``, `TDM.tblOKD`);
 * `[WITH …] UPDATE t SET c = e, … [WHERE] [ORDER BY] [LIMIT]` — one or more assignments, any fragment expression on the right;
 * `[WITH …] INSERT INTO | INSERT IGNORE INTO | INSERT OVERWRITE  [TABLE]  t  [PARTITION (…)]  [(c, t.c, …)]  VALUES (v, …), …` — every
   kind of `_parse_insert_type`; PARTITION with static items `k = v` (key and value below the comparison level) or dynamic items `k`
@@ -19,11 +19,11 @@ Built on `C03.tquery` (Props/C03Q.lean): expressions are those of `TQ.FragE3`, q
 Not covered: the other statement kinds (DDL: another development), the restrictions of `FragE3` / `FragQ`, mixed PARTITION lists
 (refused by the implementation), a WITH clause inside a sub-query or a WITH body.
 
-**Token-level printer** `TD.toksStmt d s` (= `toksStmtG d noX (d == .HIVE) s`): `PR.prStmt` as tokens; `#guard`s below check
+**Token-level printer** `TDM.toksStmt d s` (= `toksStmtG d noX (d == .HIVE) s`): `PR.prStmt` as tokens; `#guard`s below check
 `lex (prStmt d s) = toksStmt d s` in several dialects.  `toksStmtG d ch tb`: with redundant brackets `ch` inside expressions and the
 optional word `TABLE` present or not whatever the dialect.
 
-**Theorems** (every dialect; `rest` with `TD.stopsStmt d rest`: empty, or a head that continues nothing — e.g. `;`):
+**Theorems** (every dialect; `rest` with `TDM.stopsStmt d rest`: empty, or a head that continues nothing — e.g. `;`):
 * `C03.tstatement` : `FragStmt d s → stopsStmt d rest → 20 * sizeL (toksStmt d s) + 16 ≤ fuel →
   pStatement d fuel (toksStmt d s ++ rest) = ok (s, rest)`; `tstatement_ch` (any `ch` with `ChOK`, any `tb`);
   `tstatement_entry_fuel` (the entry points' fuel dominates the bound);
@@ -35,7 +35,7 @@ optional word `TABLE` present or not whatever the dialect.
 -/
 set_option linter.unusedVariables false
 set_option linter.unusedSimpArgs false
-open Lex PM Ast TP TP2 TS TQ TD
+open Lex PM Ast TP TP2 TS TQ TDM
 
 namespace C03
 /-- **T-parse, statements.**  One iteration of the loop of `parse_statements` on the token rendering of a fragment statement — DELETE,
@@ -70,7 +70,7 @@ theorem tdelete (d : Gen.D) (t : TableName) (wh : Option Expr) (ob : Option (Lis
     (hs : FragStmt d (.delete t wh ob lm) = true) (rest : List Tok) (hr : stopsStmt d rest = true)
     (fuel : Nat) (hfuel : 20 * sizeL (toksStmt d (.delete t wh ob lm)) + 16 ≤ fuel) :
     pStatement d fuel (toksStmt d (.delete t wh ob lm) ++ rest) = .ok (.delete t wh ob lm, rest) := tstatement d _ hs rest hr fuel hfuel
-/-- `WITH name AS (q), … <query>`: the tables in order in the WITH slot of the query (`TD.withsOf`), the query under it -/
+/-- `WITH name AS (q), … <query>`: the tables in order in the WITH slot of the query (`TDM.withsOf`), the query under it -/
 theorem twith_query (d : Gen.D) (q : Query) (hs : FragStmt d (.select q) = true) (rest : List Tok) (hr : stopsStmt d rest = true)
     (fuel : Nat) (hfuel : 20 * sizeL (toksStmt d (.select q)) + 16 ≤ fuel) :
     pStatement d fuel (toksWiths d noX (withsOf q) ++ (toksQ d noX q ++ rest)) = .ok (.select q, rest) := by
